@@ -21,7 +21,7 @@ ASSUME = [
     "compare_type), index / named unique constraint added, removed, changed (same name and kind, other columns or unique flag); "
     "server-default changes and foreign keys are outside the modelled universe",
 ]
-RULE = ("seeded random base schemas (1-4 tables as for C06) x every kind of the 9-kind mutation catalogue that can be instantiated on "
+RULE = ("ALL ordered pairs of catalogue types of different families as a type change on one indexed column, then seeded random base schemas (1-4 tables as for C06) x every kind of the 9-kind mutation catalogue that can be instantiated on "
         "the base (random instance per kind); each case compares db(A) with m(A) under the 4 compare_type x compare_server_default "
         "settings. every case is non-trivial (a real change is applied); distinct by the encoded (A, m)")
 EXHAUSTIVE = {"quick": False, "thorough": False}
@@ -49,7 +49,9 @@ def _cases(rnd, nbase):
 
 def generate(tier, seed):
     rnd = random.Random(seed * 7919 + 7)
-    yield from _cases(rnd, 300 if tier == "quick" else 5000)
+    for A, y in S.type_matrix(False):         # every ordered pair of catalogue types of different (non-synonymous) families
+        yield {"A": A, "m": ["change_type", 0, 1, y]}
+    yield from _cases(rnd, 300 if tier == "quick" else 4000)
 
 
 def search(tier, seed):
